@@ -362,7 +362,7 @@ class FSTView:
     def _len_field(self) -> int:
         """Length of full base `FST` field, irrespective of view `start` and `stop`."""
 
-        return len(getattr(self.base.a, self.field))
+        return len(getattr(self.base.a, self.field, ()))  # field may be gone if base was normalized to a different node by the operation that just completed (e.g. BoolOp with single value left -> that value)
 
     def _getitem(self, idx: int) -> FSTView | AST | str | None:
         """Return a single item from field (which may not be a contiguous list). `idx` is the real index already
@@ -1398,7 +1398,7 @@ class FSTView_Compare(FSTView):
     """View for `Compare` combined `left + comparators` virtual field `_all`. @private"""
 
     def _len_field(self) -> int:
-        return 1 + len(self.base.a.comparators)
+        return 1 + len(getattr(self.base.a, 'comparators', ()))  # may be gone if Compare was normalized to single element
 
     def _getitem(self, idx: int) -> FSTView | AST | str | None:
         return self.base.a.comparators[idx - 1] if idx else self.base.a.left
